@@ -387,7 +387,10 @@ def coq_ops(d, be):
         zs = "[" + "; ".join(f"({m})%Z" for m in o["modes"]) + "]"
         return f"(OMultiZ {b} {zs} {opt_nat(o['skip'])} {C.boolc(o['transpose'])})"
     if fn == "multi_mode_dot":
-        return f"(OMulti {b} {opt_nat_list(o['modes'])} {opt_nat(o['skip'])} {C.boolc(o['transpose'])})"
+        # modes=None: the code sets modes = range(len(matrix_or_vec_list)) (regenerated from the source by C02_coretie); the literal
+        # Python-int models on that list (= the natural-number routines with modes=None by C02_multi_mode_dot_default_modes)
+        zs = "[" + "; ".join(f"({m})%Z" for m in range(len(d["arrays"]) - 1)) + "]"
+        return f"(OMultiZ {b} {zs} {opt_nat(o['skip'])} {C.boolc(o['transpose'])})"
     if fn == "khatri_rao":
         return f"(OKhatri {b} {C.boolc(o['weights'])} {C.boolc(o['mask'])} {opt_nat(o['skip'])})"
     if fn == "kronecker":
@@ -1149,6 +1152,28 @@ def source_tie(chk):
             chk.broken.append({"what": "source tie einsum_equations broken: the ast rewrite does not cover the current source of an einsum-backend routine", "detail": str(e)})
         chk.checker_cmds.append("coqc on generated build/gen/C02_*/EqTie.v: source einsum equations = model equations up to renaming (Proofs/TenalgProofsEq.v)")
         chk.cov["source_derived_lemmas"]["einsum_equations"] = est
+        # third tie: the bodies of the core backend's multi_mode_dot, kronecker and unfolding_dot_khatri_rao, translated from the current
+        # source into Gallina (harness/props/C02_coretie.py), are proved equal to the model routines for all inputs
+        from harness.props import C02_coretie
+        for _, routine, _, _ in C02_coretie.ROUTINES:
+            thm = C02_coretie.THEOREMS[routine]
+            try:
+                text = C02_coretie.generate(C.REPO, routine)
+            except C02_coretie.Untranslatable as e:
+                chk.cov["source_derived_lemmas"][thm] = "broken (untranslatable source)"
+                chk.broken.append({"what": f"source tie {thm} broken: the ast -> Gallina translator does not cover the current source of core_tenalg {routine}",
+                                   "detail": str(e)})
+                continue
+            st, det = coqc(f"Core_{routine}.v", text)
+            if st == "skipped":
+                st, det = coqc(f"Core_{routine}.v", text)
+            chk.cov["source_derived_lemmas"][thm] = st
+            if st == "failed":
+                chk.broken.append({"what": f"source-derived theorem {thm} failed: core_tenalg {routine} in the tensorly source is no longer (provably) the model routine "
+                                           "of Model/Tenalg.v that the index-formula theorems are about", "detail": det})
+            elif st == "skipped":
+                chk.notes.append(f"source tie {thm} skipped: {det}")
+        chk.checker_cmds.append("coqc on generated build/gen/C02_*/Core_*.v: core multi_mode_dot / kronecker / unfolding_dot_khatri_rao source = model routine, all inputs (tensorly source -> Gallina)")
     finally:
         shutil.rmtree(d, ignore_errors=True)
 
@@ -1236,6 +1261,13 @@ def run(chk):
                 continue
             cases.append(case_lit(cid, oplit, d["arrays"], c_out, cplx or (out[0] == "ok" and np.iscomplexobj(out[1]))))
             meta.append((d, be))
+            if (d["fn"] == "multi_mode_dot" and d["opts"]["modes"] is None and di % 3 == 0
+                    and len(d["arrays"]) - 1 <= np.asarray(d["arrays"][0]).ndim):
+                # a third of the modes=None calls also go to the natural-number routines (modes = None) of the index-formula theorems
+                cid = len(cases)
+                nat_lit = f"(OMulti {C.boolc(be == 'einsum')} None {opt_nat(d['opts']['skip'])} {C.boolc(d['opts']['transpose'])})"
+                cases.append(case_lit(cid, nat_lit, d["arrays"], c_out, cplx or (out[0] == "ok" and np.iscomplexobj(out[1]))))
+                meta.append((d, be))
         # the two backends (and the memory variant) return the same tensor
         oks = [(be, out[1]) for be, out, _ in results if out[0] == "ok" and not isinstance(out[1], tuple)]
         sts = {out[0] == "ok" for _, out, _ in results}
